@@ -3,6 +3,7 @@ import concurrent.futures
 import json
 import os
 import re
+import threading
 import time
 
 import vp
@@ -111,6 +112,15 @@ def known_prefix(cls):
 # ------------------------------------------------------------------------------------------------
 # TLC: model check + dump of the state graph
 
+_lock = threading.Lock()
+
+
+def parallel(fn, argsets, workers=5):
+    with concurrent.futures.ThreadPoolExecutor(max_workers=workers) as ex:
+        futs = [ex.submit(fn, *a) for a in argsets]
+        return [f.result() for f in futs]
+
+
 _re_edge = re.compile(r'^<<"EDGE", (".*")>>$')
 
 
@@ -127,7 +137,8 @@ def mc_graph(ctx, module, caps, consts, invs, tag):
                 f" Caps = {{{','.join(map(str, caps))}}}\n{cs}\n"
                 f"INVARIANTS {' '.join(invs)}\nPROPERTY StepProp\nACTION_CONSTRAINT Emit\nVIEW view\nCHECK_DEADLOCK FALSE\n")
     res = vp.tlc(d, name, workers=1, timeout=900, libs=["data"], heap="4g")
-    vp.record_tlc(ctx, f"{module}[caps={caps}]", res)
+    with _lock:
+        vp.record_tlc(ctx, f"{module}[caps={caps}]", res)
     vp.tlc_require_ok(res, f"{module} caps={caps}")
     edges = []
     for line in res.prints:
@@ -336,12 +347,18 @@ def validate_trace(ctx, kind, trace_module, files, walks):
         if os.path.exists(f):
             recs += vp.read_ndjson(f)
     if not recs:
+        if ctx.violations:
+            # every recorded walk of this container ended in a divergence the lock-step already reported
+            ctx.note(f"no divergence-free walk of {kind} to validate (see the reported violations)")
+            return None, [], False
         raise vp.ToolError(f"no trace recorded for {kind}")
     vp.write_ndjson(merged, recs)
     v = vp.tlc_trace("data", trace_module, merged, timeout=1200)
-    vp.record_tlc(ctx, f"{trace_module}[{len(recs)} records]", v.res, count=False)
+    with _lock:
+        vp.record_tlc(ctx, f"{trace_module}[{len(recs)} records]", v.res, count=False)
+        if v.accepted:
+            ctx.traces_validated += walks
     if v.accepted:
-        ctx.traces_validated += walks
         return merged, recs, True
     run, rel = vp.run_containing(recs, v.pos) if v.pos else (recs[:40], 0)
     first = run[rel - 1] if 0 < rel <= len(run) else v.record
@@ -389,6 +406,71 @@ def selftest(ctx, aut_queue, trace_file, trace_module):
                                 "corrupted_trace_record_rejected_at": v.pos}
 
 
+def cex_summary(res):
+    out = []
+    for hdr, lines in res.cex:
+        keep = [l.strip()[3:] for l in lines if l.startswith("/\\ ") and l[3:].split(" ")[0] in ("head", "i2d", "prv", "nxl", "cap")]
+        lastl = " ".join(x.strip() for x in lines if "|->" in x)[:200]
+        out.append({"step": hdr.split(" line ")[0], "state": keep, "last": lastl})
+    return out
+
+
+def impl_layers(ctx, quick):
+    """Layer 2 (implementation-shaped) refines layer 1: the ring buffer of the queue, and the free list of the
+    slot map instantiated with parameters probed from the running code (V2 with conformance, else DRIFT)."""
+    res = vp.tlc("data", "MC_CQueueRing", workers=4, timeout=900)
+    vp.record_tlc(ctx, "CQueueRing refines CQueue [caps 0..3]", res)
+    vp.tlc_require_ok(res, "CQueueRing refines CQueue")
+    vp.check_action_coverage(res, ["RPop", "RClear", "RDestroy"], "MC_CQueueRing")
+    _, so, _ = vp.run_driver(DRIVER, ["slotprobe"])
+    par = vp.last_json_line(so)
+    ctx.coverage["slotmap_impl_parameters_extracted"] = par
+    caps = [1, 2] if quick else [1, 2, 3]
+    d = ctx.path("mc", "slotimpl", "x")[:-2]
+    with open(os.path.join(d, "MC_SI.tla"), "w") as f:
+        f.write("---- MODULE MC_SI ----\nEXTENDS CSlotMapImpl, TLC, Json\n"
+                "Emit == PrintT(<<\"EDGE\", ToJson([f |-> Obs, l |-> last', t |-> Obs'])>>)\n====\n")
+    consts = (f"CONSTANTS\n Caps = {{{','.join(map(str, caps))}}}\n FixHead = {'TRUE' if par['fix_head'] else 'FALSE'}\n"
+              f" ClearLinks = {'TRUE' if par['clear_links'] else 'FALSE'}\n")
+    with open(os.path.join(d, "dump.cfg"), "w") as f:
+        f.write("SPECIFICATION ISpec\n" + consts + "ACTION_CONSTRAINT Emit\nVIEW iview\nCHECK_DEADLOCK FALSE\n")
+    with open(os.path.join(d, "refine.cfg"), "w") as f:
+        f.write("SPECIFICATION ISpec\n" + consts + "INVARIANT HeadIsFree\nPROPERTY Refines\nCHECK_DEADLOCK FALSE\n")
+    # (a) conformance of the real slot maps to the implementation-shaped model (its graph, edge cover)
+    dump = vp.tlc(d, "MC_SI", cfg="dump.cfg", workers=1, timeout=900, libs=["data"], heap="4g")
+    vp.record_tlc(ctx, f"CSlotMapImpl graph [caps={caps} {par}]", dump)
+    vp.tlc_require_ok(dump, "CSlotMapImpl graph dump")
+    edges = [json.loads(json.loads(m.group(1))) for m in (_re_edge.match(l) for l in dump.prints) if m]
+    aut, ns, ne = build_automaton(ctx, "slotmap", edges, "impl")
+    ctx.coverage.setdefault("graphs", {})["slotmap_impl"] = {"states": ns, "edges": ne}
+    sums = run_jobs(ctx, [((aut, "slotmap", fl, cap, "cover", []), {}) for fl in FLAVOURS for cap in caps])
+    divs = {dv["class"]: dv for s in sums for dv in s.get("divergences", [])}
+    crashed = [s for s in sums if "crash" in s]
+    conform = not divs and not crashed
+    covered = sum(s.get("distinct_edges", 0) for s in sums)
+    ctx.coverage["slotmap_impl_conformance"] = {"conforms": conform, "edges_executed": covered,
+                                                "divergences": {c: dv["count"] for c, dv in divs.items()}}
+    # (b) refinement of the property layer
+    ref = vp.tlc(d, "MC_SI", cfg="refine.cfg", workers=6, timeout=1500, libs=["data"], heap="6g")
+    vp.record_tlc(ctx, f"CSlotMapImpl refines CSlotMap [caps={caps} {par}]", ref)
+    if ref.timed_out or (not ref.ok and not ref.violated):
+        raise vp.ToolError(f"TLC failed on CSlotMapImpl: {ref.error}\n{ref.output[-2000:]}")
+    if not conform:
+        ex = next(iter(divs.values()))["example"] if divs else {}
+        print(f"DRIFT: the slot map's free-list handling differs from CSlotMapImpl.tla: {ex.get('history')} -> {ex.get('observed')}")
+        ctx.note(f"drift: real slot map does not conform to CSlotMapImpl (classes {list(divs)}); the refinement result "
+                 f"({'refuted ' + str(ref.violated) if ref.violated else 'holds'}) is not attributed to the code")
+        return
+    if ref.violated:
+        report(ctx, "slotmap:after-insert_at",
+               f"slotmap: TLC refutes {ref.violated} for the implementation-shaped free-list model CSlotMapImpl.tla with the "
+               f"parameters probed from the code ({par}); the real slot maps conform to that model on all {covered} edges executed",
+               {"invariant": ref.violated, "parameters": par, "counterexample": cex_summary(ref),
+                "cmd": f"tlc -config refine.cfg MC_SI.tla  (work/C16-{ctx.tier}/mc/slotimpl)"})
+    else:
+        ctx.note("CSlotMapImpl (free list as coded, parameters probed from the code) refines CSlotMap; the real slot maps conform to it")
+
+
 def new_stats():
     return {"steps": 0, "paths": 0, "edges": 0, "drop_checks": 0, "per_action": {}, "divergence_classes": {},
             "not_constructible": [], "depths": {}}
@@ -410,8 +492,8 @@ def run(ctx):
     stats = new_stats()
     automata, jobs, trace_jobs = {}, [], {}
     # ---- 1. TLC: model check the reference models, dump the graphs
-    for kind, k in KINDS.items():
-        edges, res = mc_graph(ctx, k["module"], caps, k["consts"], k["invs"], "c16")
+    graphs = parallel(mc_graph, [(ctx, k["module"], caps, k["consts"], k["invs"], "c16") for k in KINDS.values()])
+    for (kind, k), (edges, res) in zip(KINDS.items(), graphs):
         check_vacuity(kind, edges, k["need"])
         aut, ns, ne = build_automaton(ctx, kind, edges, "c16")
         automata[kind] = aut
@@ -466,19 +548,23 @@ def run(ctx):
     # ---- 3. vacuity of the executions
     for kind, k in KINDS.items():
         for a, _ in k["need"]:
-            if a == "relocate":
+            if a == "relocate" or ctx.violations:
                 continue
             if stats["per_action"].get(a, 0) == 0:
                 raise vp.ToolError(f"vacuous execution: action {a} was never executed on a real container")
     # ---- 4. impl -> spec: TLC validates the recorded walks
-    qtrace = None
+    targs = []
     for kind, files in trace_jobs.items():
         files = [(f, w) for f, w in files if f in clean_traces]
-        merged, recs, ok = validate_trace(ctx, kind, KINDS[kind]["trace"], [f for f, _ in files],
-                                          sum(w for f, w in files if os.path.exists(f) and os.path.getsize(f) > 0))
-        if kind == "queue":
-            qtrace = merged
-    # ---- 5. selftest of the binding
+        targs.append((ctx, kind, KINDS[kind]["trace"], [f for f, _ in files],
+                      sum(w for f, w in files if os.path.exists(f) and os.path.getsize(f) > 0)))
+    tres = parallel(validate_trace, targs)
+    qtrace = next(m for (m, _, _), a in zip(tres, targs) if a[1] == "queue")
+    if qtrace is None:
+        return
+    # ---- 5. implementation-shaped layers (ring head, free list) refine the property layer
+    impl_layers(ctx, quick)
+    # ---- 6. selftest of the binding
     selftest(ctx, automata["queue"], qtrace, "CQueueTrace")
     ctx.evaluations = stats["paths"]
     ctx.distinct = stats["edges"]
